@@ -798,24 +798,53 @@ func observe(trs ...*trace) *observed {
 	return o
 }
 
-// snapLine is one observable fact; field names the finding key.
-type snapLine struct{ field, text string }
+// snapLine is one observable fact; field names the finding key. Values are kept raw and formatted only on a mismatch.
+type snapLine struct {
+	field string
+	a     addr
+	k     word
+	val   []byte
+	log   string
+}
+
+func (l snapLine) text() string {
+	switch l.field {
+	case "":
+		return "<nothing>"
+	case "logs":
+		return l.log
+	case "storage":
+		return fmt.Sprintf("%x slot %x = %x", l.a, l.k, l.val)
+	case "balance":
+		return fmt.Sprintf("%x balance = %s", l.a, new(big.Int).SetBytes(l.val))
+	}
+	return fmt.Sprintf("%x %s = %x", l.a, l.field, l.val)
+}
+
+func b2b(b bool) []byte {
+	if b {
+		return []byte{1}
+	}
+	return []byte{0}
+}
 
 func snapshot(v stateView, ob *observed) []snapLine {
-	var out []snapLine
+	out := make([]snapLine, 0, 6*len(ob.addrs)+32)
 	for _, a := range ob.addrs {
+		n := v.nonce(a)
 		out = append(out,
-			snapLine{"exist", fmt.Sprintf("%x exist=%v", a, v.exist(a))},
-			snapLine{"balance", fmt.Sprintf("%x balance=%s", a, v.balance(a))},
-			snapLine{"nonce", fmt.Sprintf("%x nonce=%d", a, v.nonce(a))},
-			snapLine{"code", fmt.Sprintf("%x code=%x", a, v.code(a))},
-			snapLine{"suicided", fmt.Sprintf("%x suicided=%v", a, v.suicided(a))})
+			snapLine{field: "exist", a: a, val: b2b(v.exist(a))},
+			snapLine{field: "balance", a: a, val: v.balance(a).Bytes()},
+			snapLine{field: "nonce", a: a, val: []byte{byte(n >> 56), byte(n >> 48), byte(n >> 40), byte(n >> 32), byte(n >> 24), byte(n >> 16), byte(n >> 8), byte(n)}},
+			snapLine{field: "code", a: a, val: v.code(a)},
+			snapLine{field: "suicided", a: a, val: b2b(v.suicided(a))})
 		for _, k := range ob.slots[a] {
-			out = append(out, snapLine{"storage", fmt.Sprintf("%x slot %x = %x", a, k, v.slot(a, k))})
+			w := v.slot(a, k)
+			out = append(out, snapLine{field: "storage", a: a, k: k, val: w[:]})
 		}
 	}
 	for i, l := range v.logs() {
-		out = append(out, snapLine{"logs", fmt.Sprintf("log %d: %s", i, l)})
+		out = append(out, snapLine{field: "logs", log: fmt.Sprintf("log %d: %s", i, l)})
 	}
 	return out
 }
@@ -830,12 +859,12 @@ func firstDiff(a, b []snapLine) (field, la, lb string, differ bool) {
 		if i < len(b) {
 			y = b[i]
 		}
-		if x.text != y.text {
+		if x.field != y.field || x.a != y.a || x.k != y.k || !bytes.Equal(x.val, y.val) || x.log != y.log {
 			f := x.field
 			if f == "" {
 				f = y.field
 			}
-			return f, x.text, y.text, true
+			return f, x.text(), y.text(), true
 		}
 	}
 	return "", "", "", false
